@@ -14,6 +14,26 @@
 //! merge must be refused); the projection law, phrased on the (s,a) and (s,b) projections of the
 //! *actual* result; the stated conflicts (descriptors, parameter indices, comments, first namespaces)
 //! must be `Err`. Inserting the entries of A / B in another order must not change the result as a set.
+//!
+//! Clause table (statement of C09 → where it is decided; "q-…"/"t-…" are sweeps of `sweeps()`):
+//!
+//! | clause | decided in | space |
+//! |---|---|---|
+//! | domain: pairs sharing the first namespace, overlapping partially at every level, comments on either side | generator `universe` × `Space` for A and B independently; floors `sharing:<level>:<combo>` (4 levels × neither/A-only/B-only/both) | every sweep |
+//! | "yields a set over (s,a,b)" | `compare`: `result:namespaces` | every successful merge |
+//! | "entries are exactly the union of the keys … at every level" | `cmp_keys` (`result:<level>:missing[..]`, `:extra`), `result:key-invariant-broken` (entry stored under a key that is not its first name / descriptor / index) | deep (1 key per map), wide / wide3 / pairs (2–3 keys per map, same name with two descriptors, insertion orders) |
+//! | "A's name in column a, B's name in column b (absent where the side lacks the entry)" | `cmp_entry` names against `reference_merge`; target names are unique per entry and side, so a cross-entry mix-up is visible | q-deep (absent / present), **deep-names**: absent / own / equal to the first name / the same name on both sides (a result must not depend on what the names *are*), pairs (multi-entry maps × absent names) |
+//! | "comments from whichever side has one" | `join_doc` + `cmp_entry` comment, four levels + `wide-top-comments` for the mappings comment | q-deep, **deep-near-comments**, pairs (multi-entry maps × comments) |
+//! | "projecting the result back onto (s,a) and (s,b) gives back A and B" | `projection_law` on `project(result, 1|2)` (lost / changed / invented entries, names in the wrong column) | every successful merge |
+//! | error: conflicting descriptors | `Mode::Mutate` FieldDesc / MethodDesc: `accepted:descriptor-conflict:*` | **every** field / method of both classes of `wide`, either side overwritten |
+//! | error: conflicting parameter indices | `Mode::Mutate` ParamIndex: `accepted:parameter-index-conflict` | **every** parameter of `wide`, either side |
+//! | error: differing comments | `join_doc` → `must_err` `comment-conflict:<level>`: `accepted:comment-conflict:*` | q-deep (d1/d2), **deep-near-comments** and top comments: comments that differ only by a blank (`"d1"`/`"d1 "`/`" d1"`) still differ |
+//! | error: differing first namespaces | `Mode::FirstNs`: `accepted:first-namespace` | B's header ∈ `FIRST_NS_VARIANTS` (**now also**: second namespaces equal, A's header swapped, first namespace differing only in case / by a repeated letter) × every pair of `wide` |
+//! | (consequence of ∀ inputs) the insertion order of the IndexMaps is part of the input | `order:*` | wide ×4 orders, wide3 ×6, pairs ×2 (quick) / ×4 (thorough) |
+//!
+//! Silent in the statement (every behaviour but a panic / silently wrong answer accepted): a parameter whose
+//! first-namespace name exists on one side only (`may_err`); equal *second* namespaces; stored first names
+//! that disagree with their key.
 
 use std::collections::{BTreeMap, BTreeSet};
 use duke::tree::class::ObjClassName;
@@ -74,12 +94,17 @@ const WIDE3: &[ShapeClass] = &[
 	ShapeClass { key: "M", fields: &[], methods: &[] },
 ];
 
+/// two entries per map at the two levels that carry comments and optional names below a class
+/// (two fields, two parameters): multi-entry maps × comments × absent names × insertion orders
+const PAIRS: &[ShapeClass] = &[ShapeClass { key: "K", fields: &[("f", "I"), ("f", "J")], methods: &[ShapeMethod { name: "m", desc: "(II)V", params: &[0, 1] }] }];
+
 fn shape_by_name(n: &str) -> &'static [ShapeClass] {
 	match n {
 		"deep" => DEEP,
 		"wide" => WIDE,
 		"wide1" => WIDE1,
 		"wide3" => WIDE3,
+		"pairs" => PAIRS,
 		_ => vcore::machinery_fail("unknown shape"),
 	}
 }
@@ -99,42 +124,92 @@ impl Side {
 	}
 }
 
+/// the name an entry has in the second namespace of its side
+#[derive(Clone, Copy, PartialEq, Eq, Debug)]
+enum Tgt {
+	Absent,
+	/// a name no other entry and not the other side has
+	Own,
+	/// the same string as the entry's name in the first namespace
+	First,
+	/// a name that the other side (with `Common`) uses for the same entry too
+	Common,
+}
+
+/// what one side may say about the entries of one level
+#[derive(Clone, Copy, Debug)]
+struct Level {
+	targets: &'static [Tgt],
+	docs: &'static [Option<&'static str>],
+}
+
 /// what one side may say about an entry
 #[derive(Clone, Debug)]
 struct SideOpts {
-	/// target name (second namespace of the side): `false` = absent, `true` = present
-	targets: &'static [bool],
-	docs: &'static [Option<&'static str>],
+	class: Level,
+	field: Level,
+	method: Level,
+	param: Level,
 	/// first-namespace name of a parameter: absent or this prefix + index
 	param_src: &'static [Option<&'static str>],
+}
+
+impl SideOpts {
+	fn uniform(targets: &'static [Tgt], docs: &'static [Option<&'static str>], param_src: &'static [Option<&'static str>]) -> SideOpts {
+		let l = Level { targets, docs };
+		SideOpts { class: l, field: l, method: l, param: l, param_src }
+	}
+	fn bounds(&self, sets: u64) -> Value {
+		let level = |l: &Level| json!({"target_name": l.targets.iter().map(|t| format!("{t:?}")).collect::<Vec<_>>(), "comments": l.docs});
+		json!({"class": level(&self.class), "field": level(&self.field), "method": level(&self.method), "parameter": level(&self.param), "parameter_first_names": self.param_src, "sets": sets})
+	}
 }
 
 const DOCS3: &[Option<&str>] = &[None, Some("d1"), Some("d2")];
 const DOCS2: &[Option<&str>] = &[None, Some("d1")];
 const DOCS0: &[Option<&str>] = &[None];
+/// comments that differ only by a trailing / leading blank are different comments
+const DOCS4: &[Option<&str>] = &[None, Some("d1"), Some("d2"), Some("d1 ")];
+const DOCS5: &[Option<&str>] = &[None, Some("d1"), Some("d2"), Some("d1 "), Some(" d1")];
+
+/// The target name of an entry: `base` is unique per entry of the shape (two fields called `f` with
+/// different descriptors get different target names), `first` is its first-namespace name (if any).
+/// `None` = this combination does not exist (`First` for an entry without a first name).
+fn target_name(t: Tgt, base: &str, first: Option<&str>, l: &str) -> Option<Option<String>> {
+	match t {
+		Tgt::Absent => Some(None),
+		Tgt::Own => Some(Some(format!("{base}_{l}"))),
+		Tgt::First => first.map(|f| Some(f.to_owned())),
+		Tgt::Common => Some(Some(format!("{base}_c"))),
+	}
+}
 
 fn universe(shape: &[ShapeClass], side: Side, o: &SideOpts) -> Universe {
 	let l = side.letter();
-	let tails = |base: &str| -> Vec<Row> { o.targets.iter().map(|t| vec![if *t { Some(format!("{base}_{l}")) } else { None }]).collect() };
-	let docs: Vec<Option<String>> = o.docs.iter().map(|d| d.map(|s| s.to_owned())).collect();
+	let tails = |lv: &Level, base: &str, first: &str| -> Vec<Row> { lv.targets.iter().filter_map(|t| target_name(*t, base, Some(first), l)).map(|n| vec![n]).collect() };
+	let docs = |lv: &Level| -> Vec<Option<String>> { lv.docs.iter().map(|d| d.map(|s| s.to_owned())).collect() };
 	Universe {
 		ns: vec!["s".into(), l.into()],
-		classes: shape.iter().map(|c| ClassU {
+		classes: shape.iter().enumerate().map(|(ci, c)| ClassU {
 			key: c.key.into(),
-			rows: tails(c.key),
-			docs: docs.clone(),
-			fields: c.fields.iter().map(|(n, d)| FieldU { name: n.to_string(), desc: d.to_string(), rows: tails(n), docs: docs.clone() }).collect(),
-			methods: c.methods.iter().map(|m| MethodU {
+			rows: tails(&o.class, c.key, c.key),
+			docs: docs(&o.class),
+			fields: c.fields.iter().enumerate().map(|(fi, (n, d))| FieldU { name: n.to_string(), desc: d.to_string(), rows: tails(&o.field, &format!("{n}{ci}{fi}"), n), docs: docs(&o.field) }).collect(),
+			methods: c.methods.iter().enumerate().map(|(mi, m)| MethodU {
 				name: m.name.into(),
 				desc: m.desc.into(),
-				rows: tails(m.name),
-				docs: docs.clone(),
+				rows: tails(&o.method, &format!("{}{ci}{mi}", m.name), m.name),
+				docs: docs(&o.method),
 				params: m.params.iter().map(|i| ParamU {
 					index: *i,
 					rows: o.param_src.iter().flat_map(|src| {
-						o.targets.iter().map(move |t| vec![src.map(|s| format!("{s}{i}")), if *t { Some(format!("q{i}_{l}")) } else { None }])
+						let first = src.map(|s| format!("{s}{i}"));
+						o.param.targets.iter().filter_map(move |t| {
+							let n = target_name(*t, &format!("q{ci}{mi}{i}"), first.as_deref(), l)?;
+							Some(vec![first.clone(), n])
+						}).collect::<Vec<_>>()
 					}).collect(),
-					docs: docs.clone(),
+					docs: docs(&o.param),
 				}).collect(),
 			}).collect(),
 			optional: true,
@@ -155,7 +230,43 @@ enum Mutation {
 	MethodFirstName,
 }
 
-const MUTATIONS: &[Mutation] = &[Mutation::FieldDesc, Mutation::MethodDesc, Mutation::ParamIndex, Mutation::ClassFirstName, Mutation::FieldFirstName, Mutation::MethodFirstName];
+/// one stored value of one entry of one side that is overwritten in `Mode::Mutate`
+#[derive(Clone, Debug)]
+struct MutCase {
+	m: Mutation,
+	side: Side,
+	class: &'static str,
+	field: Option<(&'static str, &'static str)>,
+	method: Option<(&'static str, &'static str)>,
+	param: Option<usize>,
+	/// not the first class / first field / first method / first parameter of the shape
+	later_entry: bool,
+}
+
+/// every stored descriptor, parameter index and first name of every entry of the shape, on either side
+fn mut_cases(shape: &'static [ShapeClass]) -> Vec<MutCase> {
+	let mut v = Vec::new();
+	for side in [Side::B, Side::A] {
+		for (ci, c) in shape.iter().enumerate() {
+			let base = MutCase { m: Mutation::ClassFirstName, side, class: c.key, field: None, method: None, param: None, later_entry: ci > 0 };
+			v.push(base.clone());
+			for (fi, f) in c.fields.iter().enumerate() {
+				for m in [Mutation::FieldDesc, Mutation::FieldFirstName] {
+					v.push(MutCase { m, field: Some(*f), later_entry: ci > 0 || fi > 0, ..base.clone() });
+				}
+			}
+			for (mi, me) in c.methods.iter().enumerate() {
+				for m in [Mutation::MethodDesc, Mutation::MethodFirstName] {
+					v.push(MutCase { m, method: Some((me.name, me.desc)), later_entry: ci > 0 || mi > 0, ..base.clone() });
+				}
+				for (pi, p) in me.params.iter().enumerate() {
+					v.push(MutCase { m: Mutation::ParamIndex, method: Some((me.name, me.desc)), param: Some(*p), later_entry: ci > 0 || mi > 0 || pi > 0, ..base.clone() });
+				}
+			}
+		}
+	}
+	v
+}
 
 impl Mutation {
 	/// the error class of the statement this conflict belongs to (None: the statement is silent)
@@ -185,8 +296,14 @@ enum Mode {
 	Mutate,
 }
 
-/// namespaces of B whose first one differs from A's ("s", "a")
-const FIRST_NS_VARIANTS: &[(&str, &str)] = &[("t", "b"), ("b", "s"), ("a", "b")];
+/// namespaces of B whose first one differs from A's ("s", "a"): unrelated; A's first is B's second; B's
+/// first is A's second; only the first differs (second namespaces equal); A's header swapped; the first
+/// namespace differs only in case; only by a repeated letter (one is a prefix of the other)
+const FIRST_NS_VARIANTS: &[(&str, &str)] = &[("t", "b"), ("b", "s"), ("a", "b"), ("t", "a"), ("a", "s"), ("S", "b"), ("ss", "b")];
+const FIRST_NS_COUNTERS: &[&str] = &[
+	"err:first-namespace[t,b]", "err:first-namespace[b,s]", "err:first-namespace[a,b]", "err:first-namespace[t,a]",
+	"err:first-namespace[a,s]", "err:first-namespace[S,b]", "err:first-namespace[ss,b]",
+];
 
 struct Sweep {
 	label: String,
@@ -195,6 +312,10 @@ struct Sweep {
 	b: Vec<MSet>,
 	mode: Mode,
 	orders: Vec<(Order, Order)>,
+	/// `Mode::Mutate`: the overwritten values (index = x)
+	muts: Vec<MutCase>,
+	/// `Mode::TopDocs`: the alphabet of the mappings comment of either side
+	top_docs: &'static [Option<&'static str>],
 	bounds: Value,
 }
 
@@ -202,9 +323,9 @@ impl Sweep {
 	fn nx(&self) -> u64 {
 		match self.mode {
 			Mode::Plain | Mode::SecondNsEqual => 1,
-			Mode::TopDocs => (DOCS3.len() * DOCS3.len()) as u64,
+			Mode::TopDocs => (self.top_docs.len() * self.top_docs.len()) as u64,
 			Mode::FirstNs => FIRST_NS_VARIANTS.len() as u64,
-			Mode::Mutate => (MUTATIONS.len() * 2) as u64,
+			Mode::Mutate => self.muts.len() as u64,
 		}
 	}
 	fn cases(&self) -> u64 {
@@ -226,39 +347,60 @@ fn sweep(label: &str, shape_name: &str, oa: SideOpts, ob: SideOpts, mode: Mode, 
 		shape,
 		bounds: json!({
 			"shape": shape_name, "mode": format!("{mode:?}"),
-			"A": {"target_name_present": oa.targets, "comments": oa.docs, "parameter_first_names": oa.param_src, "sets": sa.len()},
-			"B": {"target_name_present": ob.targets, "comments": ob.docs, "parameter_first_names": ob.param_src, "sets": sb.len()},
+			"A": oa.bounds(sa.len()),
+			"B": ob.bounds(sb.len()),
 			"insertion_orders": orders.iter().map(|o| format!("{o:?}")).collect::<Vec<_>>(),
 		}),
 		a: sa.all(),
 		b: sb.all(),
 		mode,
 		orders: orders.to_vec(),
+		muts: if mode == Mode::Mutate { mut_cases(shape) } else { Vec::new() },
+		top_docs: DOCS4,
 	}
 }
 
 fn sweeps(tier: vcore::Tier) -> Vec<Sweep> {
 	use Order::*;
-	const BOTH: &[bool] = &[false, true];
-	const NAMED: &[bool] = &[true];
+	use Tgt::*;
+	const BOTH: &[Tgt] = &[Absent, Own];
+	const NAMED: &[Tgt] = &[Own];
+	const NAMES4: &[Tgt] = &[Absent, Own, First, Common];
 	const SRC2: &[Option<&str>] = &[None, Some("p")];
 	const SRC3: &[Option<&str>] = &[None, Some("p"), Some("r")];
 	const SRC1: &[Option<&str>] = &[Some("p")];
 	let one: &[(Order, Order)] = &[(Sorted, Sorted)];
+	let two: &[(Order, Order)] = &[(Sorted, Sorted), (Sorted, Reversed)];
 	let four: &[(Order, Order)] = &[(Sorted, Sorted), (Reversed, Reversed), (Sorted, Reversed), (Reversed, Sorted)];
 	let six: &[(Order, Order)] = &[(Sorted, Sorted), (Reversed, Reversed), (Sorted, Reversed), (Reversed, Sorted), (Rotated(1), Sorted), (Sorted, Rotated(1))];
-	let simple = || SideOpts { targets: NAMED, docs: DOCS0, param_src: SRC1 };
+	let simple = || SideOpts::uniform(NAMED, DOCS0, SRC1);
+	// classes and methods named and without comment; fields and parameters with every option
+	let pairs = || {
+		let plain = Level { targets: NAMED, docs: DOCS0 };
+		let full = Level { targets: BOTH, docs: DOCS2 };
+		SideOpts { class: plain, field: full, method: plain, param: full, param_src: SRC1 }
+	};
 	let mut v = Vec::new();
 	match tier {
 		vcore::Tier::Quick => {
-			v.push(sweep("q-deep", "deep", SideOpts { targets: BOTH, docs: DOCS2, param_src: SRC2 }, SideOpts { targets: BOTH, docs: DOCS3, param_src: SRC3 }, Mode::Plain, one));
+			v.push(sweep("q-deep", "deep", SideOpts::uniform(BOTH, DOCS2, SRC2), SideOpts::uniform(BOTH, DOCS3, SRC3), Mode::Plain, one));
+			v.push(sweep("q-deep-names", "deep", SideOpts::uniform(NAMES4, DOCS0, SRC2), SideOpts::uniform(NAMES4, DOCS0, SRC2), Mode::Plain, one));
+			v.push(sweep("q-deep-near-comments", "deep", SideOpts::uniform(NAMED, DOCS4, SRC1), SideOpts::uniform(NAMED, DOCS4, SRC1), Mode::Plain, one));
 			v.push(sweep("q-wide-orders", "wide", simple(), simple(), Mode::Plain, four));
+			v.push(sweep("q-pairs-orders", "pairs", pairs(), pairs(), Mode::Plain, two));
 		},
 		vcore::Tier::Thorough => {
-			v.push(sweep("t-deep", "deep", SideOpts { targets: BOTH, docs: DOCS3, param_src: SRC3 }, SideOpts { targets: BOTH, docs: DOCS3, param_src: SRC3 }, Mode::Plain, one));
+			v.push(sweep("t-deep", "deep", SideOpts::uniform(BOTH, DOCS3, SRC3), SideOpts::uniform(BOTH, DOCS3, SRC3), Mode::Plain, one));
+			v.push(sweep("t-deep-names", "deep", SideOpts::uniform(NAMES4, DOCS0, SRC3), SideOpts::uniform(NAMES4, DOCS0, SRC3), Mode::Plain, one));
+			v.push(sweep("t-deep-near-comments", "deep", SideOpts::uniform(NAMED, DOCS5, SRC1), SideOpts::uniform(NAMED, DOCS5, SRC1), Mode::Plain, one));
 			v.push(sweep("t-wide-orders", "wide", simple(), simple(), Mode::Plain, four));
-			v.push(sweep("t-wide1-names-orders", "wide1", SideOpts { targets: BOTH, docs: DOCS0, param_src: SRC1 }, SideOpts { targets: BOTH, docs: DOCS0, param_src: SRC1 }, Mode::Plain, four));
-			v.push(sweep("t-wide1-comments-orders", "wide1", SideOpts { targets: NAMED, docs: DOCS2, param_src: SRC1 }, SideOpts { targets: NAMED, docs: DOCS2, param_src: SRC1 }, Mode::Plain, &four[..2]));
+			v.push(sweep("t-wide1-names-orders", "wide1", SideOpts::uniform(BOTH, DOCS0, SRC1), SideOpts::uniform(BOTH, DOCS0, SRC1), Mode::Plain, four));
+			v.push(sweep("t-wide1-comments-orders", "wide1", SideOpts::uniform(NAMED, DOCS2, SRC1), SideOpts::uniform(NAMED, DOCS2, SRC1), Mode::Plain, &four[..2]));
+			v.push(sweep("t-pairs-orders", "pairs", pairs(), pairs(), Mode::Plain, four));
+			v.push(sweep("t-wide1-pairs-orders", "wide1", pairs(), pairs(), Mode::Plain, four));
+			// every kind of name × comments: the comments on one side at a time (both at once: t-deep, names absent / own)
+			v.push(sweep("t-deep-names-comments-of-B", "deep", SideOpts::uniform(NAMES4, DOCS0, SRC2), SideOpts::uniform(NAMES4, DOCS2, SRC2), Mode::Plain, one));
+			v.push(sweep("t-deep-names-comments-of-A", "deep", SideOpts::uniform(NAMES4, DOCS2, SRC2), SideOpts::uniform(NAMES4, DOCS0, SRC2), Mode::Plain, one));
 		},
 	}
 	// the same in both tiers (small)
@@ -280,15 +422,27 @@ struct Expect {
 	must_err: BTreeSet<&'static str>,
 	/// situations the statement is silent about: refusing is acceptable
 	may_err: BTreeSet<&'static str>,
+	/// the comment conflicts (subset of `must_err`) whose two comments differ only by blanks
+	near: BTreeSet<&'static str>,
 }
 
-fn join_doc(a: Option<&Option<String>>, b: Option<&Option<String>>, class: &'static str, must: &mut BTreeSet<&'static str>) -> Option<String> {
+/// conflicts collected while joining
+#[derive(Default)]
+struct Conflicts {
+	must: BTreeSet<&'static str>,
+	near: BTreeSet<&'static str>,
+}
+
+fn join_doc(a: Option<&Option<String>>, b: Option<&Option<String>>, class: &'static str, cf: &mut Conflicts) -> Option<String> {
 	match (a.and_then(|d| d.as_ref()), b.and_then(|d| d.as_ref())) {
 		(None, None) => None,
 		(Some(x), None) | (None, Some(x)) => Some(x.clone()),
 		(Some(x), Some(y)) if x == y => Some(x.clone()),
-		(Some(x), Some(_)) => {
-			must.insert(class);
+		(Some(x), Some(y)) => {
+			cf.must.insert(class);
+			if x.trim() == y.trim() {
+				cf.near.insert(class);
+			}
 			Some(x.clone())
 		},
 	}
@@ -303,31 +457,31 @@ fn union_keys<'a, K: Ord, V>(a: Option<&'a BTreeMap<K, V>>, b: Option<&'a BTreeM
 }
 
 fn reference_merge(a: &MSet, b: &MSet) -> Expect {
-	let mut must = BTreeSet::new();
+	let mut cf = Conflicts::default();
 	let mut may = BTreeSet::new();
 	if a.ns[0] != b.ns[0] {
-		must.insert("first-namespace");
+		cf.must.insert("first-namespace");
 	}
-	let mut set = MSet { ns: vec![a.ns[0].clone(), a.ns[1].clone(), b.ns[1].clone()], doc: join_doc(Some(&a.doc), Some(&b.doc), "comment-conflict:mappings", &mut must), classes: BTreeMap::new() };
+	let mut set = MSet { ns: vec![a.ns[0].clone(), a.ns[1].clone(), b.ns[1].clone()], doc: join_doc(Some(&a.doc), Some(&b.doc), "comment-conflict:mappings", &mut cf), classes: BTreeMap::new() };
 	for k in union_keys(Some(&a.classes), Some(&b.classes)) {
 		let (ca, cb) = (a.classes.get(k), b.classes.get(k));
 		let mut c = MClass {
 			names: vec![Some(k.clone()), target(ca.map(|c| &c.names)), target(cb.map(|c| &c.names))],
-			doc: join_doc(ca.map(|c| &c.doc), cb.map(|c| &c.doc), "comment-conflict:class", &mut must),
+			doc: join_doc(ca.map(|c| &c.doc), cb.map(|c| &c.doc), "comment-conflict:class", &mut cf),
 			..Default::default()
 		};
 		for fk in union_keys(ca.map(|c| &c.fields), cb.map(|c| &c.fields)) {
 			let (fa, fb) = (ca.and_then(|c| c.fields.get(fk)), cb.and_then(|c| c.fields.get(fk)));
 			c.fields.insert(fk.clone(), MField {
 				names: vec![Some(fk.0.clone()), target(fa.map(|f| &f.names)), target(fb.map(|f| &f.names))],
-				doc: join_doc(fa.map(|f| &f.doc), fb.map(|f| &f.doc), "comment-conflict:field", &mut must),
+				doc: join_doc(fa.map(|f| &f.doc), fb.map(|f| &f.doc), "comment-conflict:field", &mut cf),
 			});
 		}
 		for mk in union_keys(ca.map(|c| &c.methods), cb.map(|c| &c.methods)) {
 			let (ma, mb) = (ca.and_then(|c| c.methods.get(mk)), cb.and_then(|c| c.methods.get(mk)));
 			let mut m = MMethod {
 				names: vec![Some(mk.0.clone()), target(ma.map(|m| &m.names)), target(mb.map(|m| &m.names))],
-				doc: join_doc(ma.map(|m| &m.doc), mb.map(|m| &m.doc), "comment-conflict:method", &mut must),
+				doc: join_doc(ma.map(|m| &m.doc), mb.map(|m| &m.doc), "comment-conflict:method", &mut cf),
 				params: BTreeMap::new(),
 			};
 			for pk in union_keys(ma.map(|m| &m.params), mb.map(|m| &m.params)) {
@@ -340,7 +494,7 @@ fn reference_merge(a: &MSet, b: &MSet) -> Expect {
 					(Some(x), Some(y)) => match (&x.names[0], &y.names[0]) {
 						(p, q) if p == q => p.clone(),
 						(Some(p), Some(_)) => {
-							must.insert("parameter-first-name-conflict");
+							cf.must.insert("parameter-first-name-conflict");
 							Some(p.clone())
 						},
 						(Some(p), None) | (None, Some(p)) => {
@@ -353,14 +507,14 @@ fn reference_merge(a: &MSet, b: &MSet) -> Expect {
 				};
 				m.params.insert(*pk, MParam {
 					names: vec![first, target(pa.map(|p| &p.names)), target(pb.map(|p| &p.names))],
-					doc: join_doc(pa.map(|p| &p.doc), pb.map(|p| &p.doc), "comment-conflict:parameter", &mut must),
+					doc: join_doc(pa.map(|p| &p.doc), pb.map(|p| &p.doc), "comment-conflict:parameter", &mut cf),
 				});
 			}
 			c.methods.insert(mk.clone(), m);
 		}
 		set.classes.insert(k.clone(), c);
 	}
-	Expect { set, must_err: must, may_err: may }
+	Expect { set, must_err: cf.must, may_err: may, near: cf.near }
 }
 
 // ---------------------------------------------------------------------------------------------
@@ -594,28 +748,19 @@ fn projection_law(side: &'static str, own: &MSet, other: &MSet, proj: &MSet, out
 // ---------------------------------------------------------------------------------------------
 // running the real code
 
-/// the entry of the shape whose stored values are made to conflict in `Mode::Mutate`
-struct Target {
-	class: &'static str,
-	field: (&'static str, &'static str),
-	method: (&'static str, &'static str),
-	param: usize,
+fn member_key(k: (&str, &str)) -> (String, String) {
+	(k.0.to_owned(), k.1.to_owned())
 }
 
-fn target_of(shape: &'static [ShapeClass]) -> Target {
-	let c = &shape[0];
-	let m = c.methods.iter().find(|m| !m.params.is_empty()).unwrap_or_else(|| vcore::machinery_fail("shape without parameters"));
-	Target { class: c.key, field: c.fields[0], method: (m.name, m.desc), param: m.params[0] }
-}
-
-fn has_target(s: &MSet, t: &Target, m: Mutation) -> bool {
+/// does the set have the entry whose stored value the case overwrites?
+fn has_target(s: &MSet, t: &MutCase) -> bool {
 	let Some(c) = s.classes.get(t.class) else { return false };
-	let me = c.methods.get(&(t.method.0.to_owned(), t.method.1.to_owned()));
-	match m {
+	let me = t.method.and_then(|m| c.methods.get(&member_key(m)));
+	match t.m {
 		Mutation::ClassFirstName => true,
-		Mutation::FieldDesc | Mutation::FieldFirstName => c.fields.contains_key(&(t.field.0.to_owned(), t.field.1.to_owned())),
+		Mutation::FieldDesc | Mutation::FieldFirstName => t.field.is_some_and(|f| c.fields.contains_key(&member_key(f))),
 		Mutation::MethodDesc | Mutation::MethodFirstName => me.is_some(),
-		Mutation::ParamIndex => me.is_some_and(|m| m.params.contains_key(&t.param)),
+		Mutation::ParamIndex => me.is_some_and(|m| t.param.is_some_and(|p| m.params.contains_key(&p))),
 	}
 }
 
@@ -624,31 +769,32 @@ fn gen_bug<T>(r: anyhow::Result<T>) -> T {
 }
 
 /// Overwrites one stored value of the real object (public fields only), leaving the key alone.
-fn mutate<Ns>(q: &mut Mappings<2, Ns>, t: &Target, m: Mutation) {
+fn mutate<Ns>(q: &mut Mappings<2, Ns>, t: &MutCase) {
 	let missing = || -> ! { vcore::machinery_fail("mutation target missing") };
 	let c = q.classes.get_mut(&gen_bug(mapmodel::cls(t.class))).unwrap_or_else(|| missing());
-	let fkey = FieldNameAndDesc { name: gen_bug(mapmodel::fname(t.field.0)), desc: gen_bug(mapmodel::fdesc(t.field.1)) };
-	let mkey = MethodNameAndDesc { name: gen_bug(mapmodel::mname(t.method.0)), desc: gen_bug(mapmodel::mdesc(t.method.1)) };
-	match m {
+	let fkey = || { let f = t.field.unwrap_or_else(|| missing()); FieldNameAndDesc { name: gen_bug(mapmodel::fname(f.0)), desc: gen_bug(mapmodel::fdesc(f.1)) } };
+	let mkey = || { let m = t.method.unwrap_or_else(|| missing()); MethodNameAndDesc { name: gen_bug(mapmodel::mname(m.0)), desc: gen_bug(mapmodel::mdesc(m.1)) } };
+	match t.m {
 		Mutation::ClassFirstName => {
 			let [_, n1] = <&[Option<ObjClassName>; 2]>::from(&c.info.names).clone();
 			c.info.names = gen_bug(Names::try_from([Some(gen_bug(mapmodel::cls("Other"))), n1]));
 		},
-		Mutation::FieldDesc => c.fields.get_mut(&fkey).unwrap_or_else(|| missing()).info.desc = gen_bug(mapmodel::fdesc("Z")),
+		Mutation::FieldDesc => c.fields.get_mut(&fkey()).unwrap_or_else(|| missing()).info.desc = gen_bug(mapmodel::fdesc("Z")),
 		Mutation::FieldFirstName => {
-			let f = c.fields.get_mut(&fkey).unwrap_or_else(|| missing());
+			let f = c.fields.get_mut(&fkey()).unwrap_or_else(|| missing());
 			let [_, n1] = <&[Option<FieldName>; 2]>::from(&f.info.names).clone();
 			f.info.names = gen_bug(Names::try_from([Some(gen_bug(mapmodel::fname("other"))), n1]));
 		},
-		Mutation::MethodDesc => c.methods.get_mut(&mkey).unwrap_or_else(|| missing()).info.desc = gen_bug(mapmodel::mdesc("(Z)V")),
+		Mutation::MethodDesc => c.methods.get_mut(&mkey()).unwrap_or_else(|| missing()).info.desc = gen_bug(mapmodel::mdesc("(Z)V")),
 		Mutation::MethodFirstName => {
-			let me = c.methods.get_mut(&mkey).unwrap_or_else(|| missing());
+			let me = c.methods.get_mut(&mkey()).unwrap_or_else(|| missing());
 			let [_, n1] = <&[Option<MethodName>; 2]>::from(&me.info.names).clone();
 			me.info.names = gen_bug(Names::try_from([Some(gen_bug(mapmodel::mname("other"))), n1]));
 		},
 		Mutation::ParamIndex => {
-			let me = c.methods.get_mut(&mkey).unwrap_or_else(|| missing());
-			me.parameters.get_mut(&ParameterKey { index: t.param }).unwrap_or_else(|| missing()).info.index = 7;
+			let me = c.methods.get_mut(&mkey()).unwrap_or_else(|| missing());
+			let p = t.param.unwrap_or_else(|| missing());
+			me.parameters.get_mut(&ParameterKey { index: p }).unwrap_or_else(|| missing()).info.index = 7;
 		},
 	}
 }
@@ -657,13 +803,13 @@ fn mutate<Ns>(q: &mut Mappings<2, Ns>, t: &Target, m: Mutation) {
 type Real = Result<Result<MSet, String>, mapmodel::KeyMismatch>;
 
 /// Builds fresh real objects and calls the real merge.
-fn real_merge(a: &MSet, b: &MSet, oa: Order, ob: Order, mutation: Option<(Mutation, Side, &Target)>, project_result: bool) -> Result<Real, vcore::Panic> {
+fn real_merge(a: &MSet, b: &MSet, oa: Order, ob: Order, mutation: Option<&MutCase>, project_result: bool) -> Result<Real, vcore::Panic> {
 	let mut qa: Mappings<2, (NsS, NsA)> = gen_bug(mapmodel::to_quill_ordered(a, oa));
 	let mut qb: Mappings<2, (NsS, NsB)> = gen_bug(mapmodel::to_quill_ordered(b, ob));
-	if let Some((m, side, t)) = mutation {
-		match side {
-			Side::A => mutate(&mut qa, t, m),
-			Side::B => mutate(&mut qb, t, m),
+	if let Some(t) = mutation {
+		match t.side {
+			Side::A => mutate(&mut qa, t),
+			Side::B => mutate(&mut qb, t),
 		}
 	}
 	vcore::guard(|| match Mappings::<2, (NsS, NsA, NsB)>::merge(&qa, &qb) {
@@ -752,6 +898,43 @@ fn tally_content(a: &MSet, b: &MSet, t: &mut Tally) {
 	}
 }
 
+/// what the names of the merged entries look like (the placement must not depend on it)
+fn tally_names(r: &MSet, t: &mut Tally) {
+	let mut row = |n: &Row| {
+		if n.len() != 3 {
+			return;
+		}
+		if n[1].is_some() && n[1] == n[2] {
+			t.count("merged-names:columns-a-and-b-equal");
+		}
+		if n[0].is_some() && n[1] == n[0] {
+			t.count("merged-names:column-a-equals-first-name");
+		}
+		if n[0].is_some() && n[2] == n[0] {
+			t.count("merged-names:column-b-equals-first-name");
+		}
+		if n[1].is_none() && n[2].is_none() {
+			t.count("merged-names:neither-column");
+		}
+	};
+	for c in r.classes.values() {
+		row(&c.names);
+		c.fields.values().for_each(|f| row(&f.names));
+		for m in c.methods.values() {
+			row(&m.names);
+			m.params.values().for_each(|p| row(&p.names));
+		}
+	}
+}
+
+/// a map with at least two entries of which one has a comment or lacks its target name
+fn rich_multi(s: &MSet) -> bool {
+	s.classes.values().any(|c| {
+		(c.fields.len() > 1 && c.fields.values().any(|f| f.doc.is_some() || f.names[1].is_none()))
+			|| c.methods.values().any(|m| m.params.len() > 1 && m.params.values().any(|p| p.doc.is_some() || p.names[1].is_none()))
+	})
+}
+
 fn order_matters(s: &MSet) -> bool {
 	s.classes.len() > 1 || s.classes.values().any(|c| c.fields.len() > 1 || c.methods.len() > 1 || c.methods.values().any(|m| m.params.len() > 1))
 }
@@ -789,8 +972,8 @@ fn inputs(sw: &Sweep, ia: usize, ib: usize, x: u64) -> (MSet, MSet) {
 	match sw.mode {
 		Mode::Plain | Mode::Mutate => {},
 		Mode::TopDocs => {
-			a.doc = DOCS3[x as usize / DOCS3.len()].map(|s| s.to_owned());
-			b.doc = DOCS3[x as usize % DOCS3.len()].map(|s| s.to_owned());
+			a.doc = sw.top_docs[x as usize / sw.top_docs.len()].map(|s| s.to_owned());
+			b.doc = sw.top_docs[x as usize % sw.top_docs.len()].map(|s| s.to_owned());
 		},
 		Mode::FirstNs => {
 			let (n0, n1) = FIRST_NS_VARIANTS[x as usize];
@@ -808,21 +991,20 @@ fn run_case(ctx: &Ctx, sw: &Sweep, ia: usize, ib: usize, x: u64, st: &mut Stats,
 	let text = |extra: &str| case_text(sw, ia, ib, x, a, b, extra);
 
 	if sw.mode == Mode::Mutate {
-		let m = MUTATIONS[x as usize / 2];
-		let side = if x % 2 == 0 { Side::B } else { Side::A };
-		let tg = target_of(sw.shape);
+		let tg = &sw.muts[x as usize];
+		let (m, side) = (tg.m, tg.side);
 		let (mine, other) = match side {
 			Side::A => (a, b),
 			Side::B => (b, a),
 		};
-		if !has_target(mine, &tg, m) {
+		if !has_target(mine, tg) {
 			t.count("stored-value-conflict:side-lacks-the-entry(skipped)");
 			return 0;
 		}
 		st.eval();
-		let real = real_merge(a, b, Order::Sorted, Order::Sorted, Some((m, side, &tg)), false);
-		let what = format!("\nstored value overwritten: {m:?} of side {side:?} (class {:?}, field {:?}, method {:?}, parameter {})\nreal: {}", tg.class, tg.field, tg.method, tg.param, show_real(&real));
-		let conflict = has_target(other, &tg, m);
+		let real = real_merge(a, b, Order::Sorted, Order::Sorted, Some(tg), false);
+		let what = format!("\nstored value overwritten: {m:?} of side {side:?} (class {:?}, field {:?}, method {:?}, parameter {:?})\nreal: {}", tg.class, tg.field, tg.method, tg.param, show_real(&real));
+		let conflict = has_target(other, tg);
 		match (&real, m.stated_class().filter(|_| conflict)) {
 			(Err(p), _) => ctx.diff(&format!("panic@{}", p.file()), &format!("merge panicked at {}: {}", p.site, p.msg), || text(&what)),
 			(Ok(Ok(Err(_))), Some(class)) => {
@@ -831,6 +1013,9 @@ fn run_case(ctx: &Ctx, sw: &Sweep, ia: usize, ib: usize, x: u64, st: &mut Stats,
 					"descriptor-conflict:method" => "err:descriptor-conflict:method",
 					_ => "err:parameter-index-conflict",
 				});
+				if tg.later_entry {
+					t.count("err:stored-value-conflict-in-a-later-entry");
+				}
 				st.sample(class, || json!({"kind": "stated-conflict", "class": class, "case": text(&what)}));
 			},
 			(Ok(_), Some(class)) => ctx.diff(&format!("accepted:{class}"), &format!("both sides have the entry under the same key but disagree ({class}); the merge was not refused"), || text(&what)),
@@ -890,6 +1075,18 @@ fn run_case(ctx: &Ctx, sw: &Sweep, ia: usize, ib: usize, x: u64, st: &mut Stats,
 							"comment-conflict:parameter" => "err:comment-conflict:parameter",
 							_ => "err:parameter-first-name-conflict",
 						});
+						if expect.near.contains(class) {
+							t.count(match class {
+								"comment-conflict:mappings" => "err:comments-differ-only-by-a-blank:mappings",
+								"comment-conflict:class" => "err:comments-differ-only-by-a-blank:class",
+								"comment-conflict:field" => "err:comments-differ-only-by-a-blank:field",
+								"comment-conflict:method" => "err:comments-differ-only-by-a-blank:method",
+								_ => "err:comments-differ-only-by-a-blank:parameter",
+							});
+						}
+						if sw.mode == Mode::FirstNs {
+							t.count(FIRST_NS_COUNTERS[x as usize]);
+						}
 						st.sample(class, || json!({"kind": "stated-conflict", "class": class, "case": text(&what())}));
 					} else {
 						t.count("err:several-conflicts-at-once");
@@ -922,6 +1119,10 @@ fn run_case(ctx: &Ctx, sw: &Sweep, ia: usize, ib: usize, x: u64, st: &mut Stats,
 					tally_sharing(sw.shape, a, b, t);
 				}
 				tally_content(a, b, t);
+				tally_names(&r, t);
+				if sw.orders.len() > 1 && (rich_multi(a) || rich_multi(b)) {
+					t.count("ok:map-with-several-entries-some-commented-or-unnamed");
+				}
 				if !a.classes.is_empty() && !b.classes.is_empty() {
 					t.count("ok:both-sides-contributed");
 					st.distinct.add(&r);
@@ -992,6 +1193,18 @@ fn main() {
 	] {
 		ctx.floor(&format!("refusals whose only conflict is {class}"), 1, total.get(&format!("err:{class}")));
 	}
+	for (i, name) in FIRST_NS_COUNTERS.iter().enumerate() {
+		ctx.floor(&format!("refusals for B's namespaces {:?}", FIRST_NS_VARIANTS[i]), 1, total.get(name));
+	}
+	for level in ["mappings", "class", "field", "method", "parameter"] {
+		ctx.floor(&format!("refusals whose only conflict is a {level} comment differing by a blank"), 1, total.get(&format!("err:comments-differ-only-by-a-blank:{level}")));
+	}
+	ctx.floor("refused stored-value conflicts in an entry that is not the first of its map", 1, total.get("err:stored-value-conflict-in-a-later-entry"));
+	ctx.floor("merged entries with the same name in columns a and b", 100, total.get("merged-names:columns-a-and-b-equal"));
+	ctx.floor("merged entries whose column a repeats the first name", 100, total.get("merged-names:column-a-equals-first-name"));
+	ctx.floor("merged entries whose column b repeats the first name", 100, total.get("merged-names:column-b-equals-first-name"));
+	ctx.floor("merged entries with a name in neither column", 100, total.get("merged-names:neither-column"));
+	ctx.floor("merged pairs with a several-entry map holding a comment or an unnamed entry, under insertion orders", 1000, total.get("ok:map-with-several-entries-some-commented-or-unnamed"));
 	ctx.floor("successful merges to which both sides contributed", 1000, total.get("ok:both-sides-contributed"));
 	ctx.floor("successful merges with A-only, B-only and shared entries at once", 100, total.get("ok:entries-of-all-three-kinds"));
 	ctx.floor("merged entries whose comment came from A only", 100, total.get("merged-comment:from-A"));
@@ -1012,6 +1225,8 @@ fn main() {
 	ctx.finish(coverage, &[
 		"a comment is not tied to a namespace: in the projection law an entry of A that has no comment may come back with B's comment of the same entry (the statement's 'comments from whichever side has one')",
 		"the first-namespace name of a parameter is not part of its key: two different names must be refused (no result projects back onto both sides); a name on one side only may be refused or kept, never dropped (statement silent)",
+		"comments are compared as strings: two comments that differ only by a leading / trailing blank are differing comments (must be refused)",
+		"the placement of names does not depend on what the names are: a name equal to the entry's first name, or equal on both sides, is a name like any other",
 		"conflicting descriptors / parameter indices can only exist as stored values that disagree under the same key; they are produced by overwriting the public info.desc / info.index of one real object. A stored *first name* that disagrees with its key is outside the statement and explored for panics only",
 		"equal names of the second namespaces of A and B are not in the statement: Ok (judged like any merge) or Err are accepted",
 		"the order of the entries in the result is not part of the property; results are compared as sets",
@@ -1041,10 +1256,10 @@ fn replay(ctx: &'static Ctx, path: &std::path::Path) -> ! {
 	let (a, b) = inputs(&sw, ia, ib, x);
 	println!("{}", case_text(&sw, ia, ib, x, &a, &b, ""));
 	if sw.mode == Mode::Mutate {
-		let (m, side) = (MUTATIONS[x as usize / 2], if x % 2 == 0 { Side::B } else { Side::A });
-		println!("stored value overwritten: {m:?} of side {side:?}");
-		if has_target(if side == Side::A { &a } else { &b }, &target_of(sw.shape), m) {
-			println!("real: {}", show_real(&real_merge(&a, &b, Order::Sorted, Order::Sorted, Some((m, side, &target_of(sw.shape))), true)));
+		let tg = &sw.muts[x as usize];
+		println!("stored value overwritten: {tg:?}");
+		if has_target(if tg.side == Side::A { &a } else { &b }, tg) {
+			println!("real: {}", show_real(&real_merge(&a, &b, Order::Sorted, Order::Sorted, Some(tg), true)));
 		}
 	} else {
 		let e = reference_merge(&a, &b);
